@@ -30,12 +30,12 @@
 (*     (atoms  s R t  with R in <, <=, >, >=, = and s, t of the shapes  v | c | v + c | c + v | of_nat v | of_int v,     *)
 (*     v an integer-valued variable, c a numeral; sub-formulas not mentioning these variables are constants). *)
 (*     WITNESS BOUND.  Let C be the largest sum of numerals in one atom of the body and q the quantifier      *)
-(*     depth of the body, Tq = (C + 2) * 2^q.  Call two integer tuples (with 0 as a distinguished entry)      *)
+(*     depth of the body, Tq = (C + 1) * 2^q.  Call two integer tuples (with 0 as a distinguished entry)      *)
 (*     r-similar when all pairwise differences are equal or both beyond r with the same sign.  A quantifier-  *)
 (*     free difference formula with atom constants <= C cannot tell (C+1)-similar tuples apart, and by the    *)
 (*     usual back-and-forth step (an element within r of an old one is copied at the same offset, an element  *)
 (*     further than r from all old ones lies in a gap >= 2r or outside the hull and is copied at offset r)    *)
-(*     formulas of depth q cannot tell (C+2)*2^q-similar tuples apart; nat binders are int binders            *)
+(*     formulas of depth q cannot tell (C+1)*2^q-similar tuples apart; nat binders are int binders            *)
 (*     relativised to 0 <= x (constant 0).  Hence if  ?x. body  holds for the current values V of the other   *)
 (*     variables, a witness exists in  [min(V u {0}) - Tq, max(V u {0}) + Tq].  D is this interval (cut at 0  *)
 (*     for nat) united with the finite sub-domain.  The S machine C06_Bridge checks on its whole universe     *)
@@ -138,13 +138,29 @@ VDom(T, P) == CASE T = "nat" -> { <<i, 1>> : i \in 0..P.n }
                 [] T = "('a=>'a)" -> [Carrier(P.k) -> Carrier(P.k)]
                 [] OTHER -> {}
 BeInts(be) == { be[i][1] : i \in { j \in 1..Len(be) : be[j][2] = 1 } }
-\* domain of a binder of type T with body `body` under the bound-variable stack be:  [dom, complete]
-QD(T, body, be, P) ==
+\* Witness bound of a binder of integer type with this body: Tq when the body is a difference formula in the
+\* bound variable (and the interval is small enough to enumerate), 0 when the binder can only be used one-sidedly.
+WitBound(T, body) ==
+  IF T \in IntT /\ QDepth(body) <= 3 /\ MaxC(body) <= 20
+  THEN LET tq == (MaxC(body) + 1) * Pow2(QDepth(body)) IN IF tq <= TqCap /\ DOC(body, {0}) THEN tq ELSE 0
+  ELSE 0
+\* Prep(f): the same formula with the witness bound of every binder stored in the (otherwise unused) 4th field of
+\* the binder node, so that the syntactic analysis is done once and not at every evaluation.  Formulas that were
+\* not prepared have 0 there: their integer binders are one-sided (sound, less often decided).
+RECURSIVE Prep(_)
+Prep(t) == IF IsQ(t) THEN (IF Len(t[5]) = 1 THEN <<t[1], t[2], t[3], WitBound(t[3], t[5][1]), <<Prep(t[5][1])>>>> ELSE t)
+           ELSE IF Len(t[5]) = 0 THEN t
+           ELSE IF Len(t[5]) = 1 THEN <<t[1], t[2], t[3], t[4], <<Prep(t[5][1])>>>>
+           ELSE IF Len(t[5]) = 2 THEN <<t[1], t[2], t[3], t[4], <<Prep(t[5][1]), Prep(t[5][2])>>>>
+           ELSE IF Len(t[5]) = 3 THEN <<t[1], t[2], t[3], t[4], <<Prep(t[5][1]), Prep(t[5][2]), Prep(t[5][3])>>>>
+           ELSE t
+\* domain of a binder of type T with (prepared) witness bound tq0 under the bound-variable stack be:  [dom, complete]
+QD(T, tq0, be, P) ==
   IF T \in IntT
-  THEN LET fin == VDom(T, P)
-           tq == (MaxC(body) + 2) * Pow2(QDepth(body)) * P.w IN
-       IF QDepth(body) <= 3 /\ MaxC(body) <= 20 /\ (MaxC(body) + 2) * Pow2(QDepth(body)) <= TqCap /\ DOC(body, {0})
+  THEN LET fin == VDom(T, P) IN
+       IF tq0 > 0
        THEN LET vals == P.iv \cup BeInts(be) \cup {0}
+                tq == tq0 * P.w
                 lo == SetMin(vals) - tq
                 hi == SetMax(vals) + tq
                 lo2 == IF T = "nat" /\ lo < 0 THEN 0 ELSE lo IN
@@ -238,7 +254,7 @@ Ev(f, va, be, P) ==
          IF f[3] # "bool" THEN "N" ELSE LET v == Val(f, va, be, P) IN IF v = TT THEN "T" ELSE IF v = FF THEN "F" ELSE "N"
     [] kd \in {"all", "exists"} ->
          IF na # 1 THEN "N"
-         ELSE LET D == QD(f[3], as[1], be, P)
+         ELSE LET D == QD(f[3], f[4], be, P)
                   rs == { Ev(as[1], va, <<d>> \o be, P) : d \in D.dom } IN
               IF D.dom = {} THEN "N"
               ELSE IF kd = "all" THEN (IF "F" \in rs THEN "F" ELSE IF D.complete /\ rs = {"T"} THEN "T" ELSE "N")
@@ -278,8 +294,14 @@ NoVA == ("!" :> FF)                      \* the empty assignment (a string-keyed
 UsesTyVar(goal, prems) == \E T \in TypesIn(goal) \cup UNION { TypesIn(prems[i]) : i \in 1..Len(prems) } :
                              T \in {"'a"} \cup FunT
 \* the set of truth values of  prems |- goal  over all assignments (carriers of size 1 and 2 for 'a)
-Outcomes(goal, prems, n, w) ==
-  LET vs == SetToSeqC(SeqFV(goal, prems))
+Outcomes(goal0, prems0, n, w) ==
+  LET goal == Prep(goal0)
+      prems == IF Len(prems0) = 0 THEN <<>>
+               ELSE IF Len(prems0) = 1 THEN <<Prep(prems0[1])>>
+               ELSE IF Len(prems0) = 2 THEN <<Prep(prems0[1]), Prep(prems0[2])>>
+               ELSE IF Len(prems0) = 3 THEN <<Prep(prems0[1]), Prep(prems0[2]), Prep(prems0[3])>>
+               ELSE prems0
+      vs == SetToSeqC(SeqFV(goal, prems))
       ks == IF UsesTyVar(goal, prems) THEN {1, 2} ELSE {1} IN
   UNION { OutRec(goal, prems, vs, 1, NoVA, [n |-> n, w |-> w, k |-> k, iv |-> {}]) : k \in ks }
 Refuted(goal, prems, n) == "F" \in Outcomes(goal, prems, n, 1)
